@@ -217,7 +217,9 @@ theorem encodableTypes_schemas :
 `encodableTypes` — from *any* text, any origin / relativize / relativize_to — is within what `to_wire` can pack:
 integers fit their `struct` formats, character-strings, salts and hashes are at most 255 octets, addresses have 4 / 16
 octets, bitmap windows are below 256 with at most 32 octets, and names can be written against any absolute origin `O`
-(a relative name needs one: `to_wire()` without origin raises `NeedAbsoluteNameOrOrigin` by design); HIP / TKEY keys and
+under which the relative names of the value fit (`NamesFit`: a relative name needs an origin — `to_wire()` without one
+raises `NeedAbsoluteNameOrOrigin` by design — and `n ++ O` must be a legal name, else `NameTooLong`; a name read against
+the parse origin always fits it, the TKEY / TSIG algorithm name is read without any origin); HIP / TKEY keys and
 TKEY other data fit their 16-bit lengths.  For the RFC 3597
 generic syntax the value was re-encoded by `from_text` itself against `wireOrigin env`, so it is encodable against that.
 `encRec` is tied to `Rdata.to_wire` by the correspondence op `c05.wire.enc`; composing with the C02 codec theorems was
@@ -226,7 +228,7 @@ this model. -/
 theorem text_accepts_encodable (tn : String) (htn : tn ∈ encodableTypes) (env : PEnv) (text : Text)
     (vals : List FV) (tail : Option FV) (h : fromTextRdata (some tn) env text = some (.known vals tail)) :
     ∃ sch toks, schemaOf tn = some sch ∧ lexLine text = some toks ∧
-      (isGenericStart toks = false → ∀ O, isAbs O = true → (encRec tn sch (some O) vals tail).isSome = true) ∧
+      (isGenericStart toks = false → ∀ O, isAbs O = true → NamesFit O vals tail → (encRec tn sch (some O) vals tail).isSome = true) ∧
       (isGenericStart toks = true → (encRec tn sch (wireOrigin env) vals tail).isSome = true) := by
   obtain ⟨sch, hsch, henc⟩ := encodableTypes_schemas tn htn
   unfold fromTextRdata at h
@@ -235,7 +237,7 @@ theorem text_accepts_encodable (tn : String) (htn : tn ∈ encodableTypes) (env 
   | some toks =>
     simp only [hl, hsch] at h
     refine ⟨sch, toks, hsch, rfl, ?_, ?_⟩
-    · intro hg O hO
+    · intro hg O hO hfit
       simp only [hg, Bool.false_eq_true, if_false] at h
       cases hp : parseRec sch env toks with
       | none => simp [hp] at h
@@ -246,11 +248,11 @@ theorem text_accepts_encodable (tn : String) (htn : tn ∈ encodableTypes) (env 
         by_cases hh : tn = "HIP"
         · subst hh
           simp only [encRec, if_true]
-          exact hip_encodable sch hsch env O hO toks _ _ hp
+          exact hip_encodable sch hsch env O hO toks _ _ hp hfit
         · simp only [encRec, hh, if_false]
           rcases henc with e | henc
           · exact absurd e hh
-          · exact record_encodable tn sch env O hO henc toks _ _ hp
+          · exact record_encodable tn sch env O hO henc toks _ _ hp hfit
     · intro hg
       simp only [hg, if_true] at h
       split at h
@@ -320,7 +322,15 @@ example : WfText "APL" {} {} [] (some (.apl [(1, true, [192, 168, 0, 0], 16),
   simp at hit
   rcases hit with rfl | rfl
   · exact Or.inl ⟨rfl, ⟨192, 168, 0, 0, rfl, by decide, by decide, by decide, by decide⟩, by decide⟩
-  · exact Or.inr ⟨rfl, rfl, by decide, by decide⟩
+  · exact Or.inr (Or.inl ⟨rfl, rfl, by decide, by decide⟩)
+
+/-- `APL !7:ab00/255`: an item of an unknown address family (hex digits since commit dc89065), trailing zero octet kept -/
+example : WfText "APL" {} {} [] (some (.apl [(7, true, [0xab, 0], 255)])) := by
+  refine ⟨_, rfl, trivial, ?_, by decide, rfl⟩
+  intro it hit
+  simp at hit
+  subst hit
+  exact Or.inr (Or.inr ⟨by decide, by decide, by decide, by decide, by decide, by decide⟩)
 
 /-- `WKS 10.0.0.1 6 25` (SMTP over TCP) -/
 example : WfText "WKS" {} {} [] (some (.wks [10, 0, 0, 1] 6 [0, 0, 0, 0x40])) := by
